@@ -29,22 +29,37 @@ N_MAX = {"quick": 3, "thorough": 4}
 
 
 class IArr:
-    """ndarray stand-in for shape/stride arithmetic."""
+    """ndarray stand-in for shape/stride arithmetic.
 
-    def __init__(self, shape, nbyte, contiguous, source=None):
+    A general (possibly non-contiguous) array: one symbolic byte stride per axis.  `flags["C_CONTIGUOUS"]` is NumPy's own
+    definition of the flag (numpy/_core/src/multiarray/flagsobject.c, relaxed strides): true iff some axis has length 0, or
+    every axis of length != 1 has stride itemsize*prod(shape[j+1:]) -- the stride of a length-1 axis is unconstrained.
+    `canonical=True` is the array np.ascontiguousarray / a fresh allocation returns: every stride canonical.
+    """
+
+    def __init__(self, shape, nbyte, strides=None, source=None):
         self.shape = tuple(shape)
         self.ndim = len(self.shape)
         self.nbyte = nbyte
-        self.flags = {"C_CONTIGUOUS": contiguous}
+        self.itemsize = nbyte
         self.source = source
-        # only C-contiguous arrays have their strides read by the function under contract
         cs = []
         acc = 1
         for x in reversed(self.shape):
             cs.append(acc)
             acc = acc * x
         self.cs = list(reversed(cs))
-        self._strides = tuple(c * nbyte for c in self.cs)
+        canon = tuple(c * nbyte for c in self.cs)
+        self._strides = canon if strides is None else tuple(strides)
+        if strides is None:
+            contig = z3.BoolVal(True)
+        else:
+            contig = z3.Or(
+                z3.Or(*[x == 0 for x in self.shape]) if self.shape else z3.BoolVal(False),
+                z3.And(*[z3.Or(x == 1, st == c) for x, st, c in zip(self.shape, self._strides, canon)]) if self.shape else z3.BoolVal(True),
+            )
+        self.contig = contig
+        self.flags = {"C_CONTIGUOUS": contig, "C": contig}
 
     @property
     def strides(self):
@@ -63,7 +78,7 @@ def harness(n, m, step_kind, dil_kind, dil_len_ok=True):
         record = {}
 
         def ascontiguousarray(a):
-            return IArr(a.shape, a.nbyte, True, source=a)
+            return IArr(a.shape, a.nbyte, None, source=a)
 
         def as_strided(a, shape=None, strides=None, writeable=True, **k):
             v = View(a, shape, strides, writeable)
@@ -78,8 +93,9 @@ def harness(n, m, step_kind, dil_kind, dil_len_ok=True):
             ctx.assume(x >= 0)
         nb = z3.Int("nbyte")
         ctx.assume(nb > 0)
-        contig = z3.Bool("contiguous")
-        arr = IArr(xs, nb, contig)
+        st = [z3.Int(f"st{j}") for j in range(n)]  # byte strides of the caller's array: arbitrary integers
+        arr = IArr(xs, nb, st)
+        contig = arr.contig
         W = [z3.Int(f"W{k}") for k in range(m)]
         if step_kind == "int":
             s = z3.Int("S")
@@ -130,20 +146,32 @@ def harness(n, m, step_kind, dil_kind, dil_len_ok=True):
             return
         src = v.arr
         ctx.oblige(f"{tag}.view_of_arr_or_contiguous_copy", src is arr or src.source is arr, **meta)
-        ctx.oblige(f"{tag}.contiguous_before_striding", z3.Or(contig, z3.BoolVal(src is not arr)), **meta)
         ctx.oblige(f"{tag}.read_only", v.writeable is False, **meta)
-        cs = arr.cs
         exp_shape = [(xs[lead + k] - ((W[k] - 1) * D[k] + 1)) / S[k] + 1 for k in range(m)] + xs[:lead] + W
-        exp_strides = [S[k] * cs[lead + k] * nb for k in range(m)] + [cs[j] * nb for j in range(lead)] + [D[k] * cs[lead + k] * nb for k in range(m)]
-        ok_len = isinstance(v.shape, tuple) and isinstance(v.strides, tuple) and len(v.shape) == len(exp_shape) and len(v.strides) == len(exp_strides)
+        ok_len = isinstance(v.shape, tuple) and isinstance(v.strides, tuple) and len(v.shape) == len(exp_shape) and len(v.strides) == len(exp_shape)
         ctx.oblige(f"{tag}.rank", ok_len, **meta)
         if not ok_len:
             return
         # floor-division note: S_k > 0 on this path (validated), SMT `div` = python `//` there
         for i, (a, b) in enumerate(zip(v.shape, exp_shape)):
             ctx.oblige(f"{tag}.out_shape[{i}]", a == b, **meta)
-        for i, (a, b) in enumerate(zip(v.strides, exp_strides)):
-            ctx.oblige(f"{tag}.strides[{i}]", a == b, **meta)
+        # element identity: out[g.., n.., w..] IS src[n.., g*step + w*dilation] (same byte offset from the start of src), where
+        # src is arr itself or its contiguous copy.  Stated per axis group (equivalent to equality of the offset sums, since every index ranges from 0 independently): the
+        # offsets are compared under the index ranges, so strides of axes whose only index is 0 are unconstrained.
+        G = [z3.Int(f"g{k}") for k in range(m)]
+        Wi = [z3.Int(f"w{k}") for k in range(m)]
+        Ni = [z3.Int(f"n{j}") for j in range(lead)]
+        rng_h = [z3.And(0 <= G[k], G[k] < exp_shape[k], 0 <= Wi[k], Wi[k] < W[k]) for k in range(m)] + [z3.And(0 <= Ni[j], Ni[j] < xs[j]) for j in range(lead)]
+        in_range = z3.And(*rng_h)
+        sst = src.strides
+        for j in range(lead):
+            ctx.oblige(f"{tag}.element_offset.lead[{j}]", z3.Implies(in_range, v.strides[m + j] * Ni[j] == sst[j] * Ni[j]), **meta)
+        for k in range(m):
+            ctx.oblige(
+                f"{tag}.element_offset.window[{k}]",
+                z3.Implies(in_range, v.strides[k] * G[k] + v.strides[m + lead + k] * Wi[k] == sst[lead + k] * (G[k] * S[k] + Wi[k] * D[k])),
+                **meta,
+            )
         # in-bounds: every addressed element lies inside arr (no memory outside arr is exposed)
         for k in range(m):
             g, w = z3.Int(f"g{k}"), z3.Int(f"w{k}")
